@@ -7,6 +7,7 @@ import (
 	"strconv"
 	"strings"
 
+	"gorm.io/gorm"
 	"pgregory.net/rapid"
 )
 
@@ -35,6 +36,10 @@ func Gen(t *rapid.T, cfg Config) *Chain {
 	g := &gen{t: t, cfg: cfg}
 	c := g.chain()
 	c.NoExec = g.noExec
+	if c.Raw != nil && g.pct("rawspace", 45) {
+		// multi-line literals: leading / trailing white space is part of the statement text
+		c.Raw.SQL = g.oneOf("rawlead", "", " ", "\n", "\n  ") + c.Raw.SQL + g.oneOf("rawtrail", "", " ", "\n", " \n")
+	}
 	sanitize(c)
 	if rescanBytes(c, false) && cfg.Skip[ClassRescanBytes] {
 		rescanBytes(c, true)
@@ -798,7 +803,8 @@ func (g *gen) unit(sc scope, where string) Unit {
 		case 0:
 			return Unit{Form: "pk", PK: &Val{K: KInt, I: g.num()}}
 		case 1:
-			return Unit{Form: "pk", PK: &Val{K: KStr, S: strconv.FormatInt(g.num(), 10)}}
+			// a numeric string alone is the primary key; signed spellings are integers too
+			return Unit{Form: "pk", PK: &Val{K: KStr, S: g.oneOf("pksign", "", "", "-", "+") + strconv.FormatInt(g.num(), 10)}}
 		case 2:
 			v := g.slice("int", false, false)
 			if v.K == KAnys {
@@ -1357,4 +1363,77 @@ func (g *gen) exec() *Chain {
 		c.Raw = g.posTmpl(scope{table: table}, 1+g.pick("execn", 2), "DELETE FROM "+table+" WHERE ", true)
 	}
 	return c
+}
+
+// GenPrefix draws one Where(...) call for a reusable handle that the chain is
+// then started from (db.Where(p).Session(&Session{})); nil when a leading
+// condition would not be part of the chain's statement.
+func GenPrefix(t *rapid.T, cfg Config, c *Chain) *Cond {
+	switch c.Kind {
+	case "query", "update", "delete":
+	default:
+		return nil
+	}
+	g := &gen{t: t, cfg: cfg, n: 400} // sentinels disjoint from the chain's
+	table, _ := tableOf(c.Base)
+	sc := scope{table: table, depth: 1}
+	if len(c.Joins) > 0 {
+		sc.qual = "items."
+	}
+	u := g.unit(sc, "group")
+	cd := &Cond{Op: "where", U: u}
+	tmp := &Chain{Kind: "query", Base: c.Base, Conds: []Cond{*cd}}
+	sanitize(tmp)
+	if rescanBytes(tmp, false) || g.noExec {
+		return nil
+	}
+	return cd
+}
+
+// WithPrefix returns a copy of the chain whose conditions start with p: the
+// description of "chain applied on a handle that already carries Where(p)".
+func (c *Chain) WithPrefix(p *Cond) *Chain {
+	if p == nil {
+		return c
+	}
+	cp := *c
+	cp.Conds = append([]Cond{*p}, c.Conds...)
+	return &cp
+}
+
+// ApplyPrefix performs the Where call of p on db.
+func ApplyPrefix(db *gorm.DB, p *Cond) *gorm.DB {
+	if p == nil {
+		return db
+	}
+	return applyConds(db, db, []Cond{*p})
+}
+
+// WithReenter returns a copy of the chain with one more Where at the end of its
+// conditions whose argument is a Reenter value (see ReenterHook).
+func (c *Chain) WithReenter(v int64) *Chain {
+	table, _ := tableOf(c.Base)
+	col := map[string]string{"items": "code", "t": "code", "owners": "age", "tags": "weight"}[table]
+	if len(c.Joins) > 0 {
+		col = "items." + col
+	}
+	cp := *c
+	cp.Conds = append(append([]Cond(nil), c.Conds...), Cond{Op: "where", U: Unit{Form: "tmpl",
+		T: &Tmpl{SQL: col + " <> ?", Slots: []Slot{{A: Arg{V: &Val{K: KReenter, I: v}}}}}}})
+	return &cp
+}
+
+// GenSibling draws a simple query on the same base as c (two conditions, Find):
+// a second statement to derive from the same reusable handle.
+func GenSibling(t *rapid.T, cfg Config, c *Chain) *Chain {
+	b := &Chain{Kind: "query", Base: c.Base, Sub: c.Sub, Fin: "find"}
+	for i := 0; i < 2; i++ {
+		g := &gen{t: t, cfg: cfg, n: 500 + 50*i}
+		table, _ := tableOf(c.Base)
+		sc := scope{table: table, depth: 2}
+		u := Unit{Form: "tmpl", T: g.posTmpl(sc, 1+g.pick("sibpieces", 2), "", false)}
+		b.Conds = append(b.Conds, Cond{Op: "where", U: u})
+	}
+	sanitize(b)
+	return b
 }
